@@ -27,7 +27,7 @@ end Sv.Rpc
 
   The request body of an XML-RPC call reaches the server as the byte chunks the socket happens to
   deliver.  `supervisor.medusa.xmlrpc_handler.collector` keeps them and hands `continue_request`
-  one text.  The generated definitions `collData_c0_0` (what is kept per chunk) and `collFound_c0_0`
+  one text.  The generated definitions `collKept` (what is kept per chunk) and `collFound_c0_0`
   (what is handed over) are expressions over the helpers below; `Except.error` = the exception raised.
 -/
 namespace Sv.Rpc
